@@ -4,7 +4,7 @@ from __future__ import annotations
 import ast
 from typing import Any, Dict, List, Optional, Tuple
 
-from .icommon import PathAbort, _Raise, _Return, _describe
+from .icommon import PathAbort, _Raise, _Return, _describe, _walk_own
 from .model import Module, NotConst
 from .report import AnalysisError
 from .values import (FALSE, NONE, TRUE, AbsList, AltV, BoundV, Const, FuncV, ListV, MapV, NewNode, NodeV, ObjV,
@@ -66,7 +66,7 @@ class CallMixin:
         if isinstance(base, Sym) and base.op == "exc" and attr == "args":
             return PyTuple(list(base.args[1]))
         if isinstance(base, (Const, Str, PyList, PyTuple, PyDict, AbsList, ListV, MapV)) or \
-                (isinstance(base, Sym) and base.hint == "str"):
+                (isinstance(base, Sym) and (base.hint == "str" or base.op == "set")):
             return Sym("bm", base, attr)
         if isinstance(base, (FuncV, BoundV)):
             if attr == "__name__":
@@ -163,6 +163,11 @@ class CallMixin:
             if r is not None:
                 ci, d = r
                 if isinstance(d, (ast.FunctionDef, ast.AsyncFunctionDef)):
+                    decos = [ast.unparse(x) for x in d.decorator_list]
+                    if "classmethod" in decos:
+                        b = BoundV(RefV(q), q, d, ci.module)  # bound to the class it was reached through
+                        b.attr_name = attr  # type: ignore[attr-defined]
+                        return b
                     return FuncV(ci.module, d)
                 try:
                     return self.eval(d, {}, ci.module)
@@ -806,6 +811,8 @@ class CallMixin:
             t = ast.unparse(d.func if isinstance(d, ast.Call) else d)
             if t.split(".")[-1] == "dataclass":
                 return True
+        if any(b in ("typing.NamedTuple",) for b in ci.bases):
+            return True
         return False
 
     def _dataclass_init(self, q: str, obj: ObjV, args, kwargs, module):
@@ -948,6 +955,8 @@ class CallMixin:
                     return AbsList(v.elem, self.list_minlen(v))
                 return Sym("tupleof", v)
             return Sym("call", RefV("builtins." + name), tuple(a), ())
+        if name == "str.maketrans" and len(a) == 2 and all(isinstance(x, Const) and isinstance(x.v, str) for x in a) and len(a[0].v) == len(a[1].v):
+            return Sym("transtable", tuple(zip(a[0].v, a[1].v)))
         if name == "str.maketrans" and len(a) == 1 and isinstance(a[0], PyDict) and not a[0].opaque_keys:
             pairs = []
             for (tag, k), v in a[0].items.items():
@@ -1180,6 +1189,22 @@ class CallMixin:
             return self.list_method(base, name, a, kwargs, module, node)
         if isinstance(base, PyDict):
             return self.dict_method(base, name, a, kwargs)
+        if isinstance(base, Sym) and base.op == "set" and len(a) == 1 and name in ("isdisjoint", "issuperset", "__contains__"):
+            if name == "__contains__":
+                return Const(self.contains(base, a[0], "set.__contains__"))
+            others = self.concrete_items(a[0])
+            if others is None and isinstance(a[0], Sym) and a[0].op == "set" and not any(isinstance(x, Sym) and x.op == "elemof" for x in a[0].args[0]):
+                others = list(a[0].args[0])
+            if others is not None:
+                if name == "isdisjoint":      # no element of the argument is in the set (checked left to right, like any())
+                    for x in others:
+                        if self.contains(base, x, "isdisjoint"):
+                            return FALSE
+                    return TRUE
+                for x in others:              # issuperset: every element of the argument is in the set
+                    if not self.contains(base, x, "issuperset"):
+                        return FALSE
+                return TRUE
         if isinstance(base, Const) and isinstance(base.v, dict):
             from .interp_expr import from_py
             return self.dict_method(from_py(base.v), name, a, kwargs)
@@ -1254,6 +1279,23 @@ class CallMixin:
             if isinstance(seq, (MapV, ListV, AbsList)):
                 return Str([("join", sep, seq.elem, seq.over if isinstance(seq, MapV) else seq)])
             return Str([("join", sep, Sym("elemof", seq), seq)])
+        if name == "translate" and len(a) == 1 and isinstance(a[0], ObjV) and "builtins.dict" in self.repo.mro(a[0].cls) and \
+                getattr(a[0], "init_args", None) and len(a[0].init_args[0]) == 1 and isinstance(a[0].init_args[0][0], Sym) \
+                and a[0].init_args[0][0].op == "transtable" and not a[0].attrs:
+            # a translation table with a default: characters of the table are mapped as it says, every other code point goes
+            # through __missing__.  identity on a set S + constant default c  ==  re.sub('[^S]', c, text)
+            pairs = a[0].init_args[0][0].args[0]
+            miss = self.repo.lookup_method(a[0].cls, "__missing__")
+            default = None
+            if miss is not None:
+                rets = [n.value for n in _walk_own(miss[1]) if isinstance(n, ast.Return)]
+                if len(rets) == 1 and isinstance(rets[0], ast.Constant) and isinstance(rets[0].value, str):
+                    default = rets[0].value
+            if default is not None and all(k == r for k, r in pairs) and "\\" not in default:
+                import re as _re
+                cls_chars = "".join(_re.escape(k) for k, _ in pairs)
+                rxv = Sym("regex", "[^" + cls_chars + "]", ())
+                return Sym("call", Sym("attr", rxv, "sub"), (Const(default), base), (), hint="str")
         if name == "translate" and len(a) == 1 and isinstance(a[0], Sym) and a[0].op == "transtable":
             pairs = a[0].args[0]
             # a simultaneous single-character substitution equals the chain of replaces in table order when no replacement
